@@ -2,6 +2,7 @@
 C18 — the cluster membership view follows the provider's snapshots exactly.
 -/
 import HW.Proofs.Cluster
+import HW.Proofs.ClusterHist
 namespace HW.C18
 open HW.Cluster
 
@@ -37,6 +38,27 @@ theorem initial_state (localKinds : List String) :
   constructor
   · simp [idsNodup, ids]
   · intro k; simp
+
+/-! ### every sequence of snapshots (the property's quantifier) -/
+
+/-- the invariant the one-step theorems need holds along every history. -/
+theorem history_nodup (st : AgentSt) (h : idsNodup st.members) (snaps : List (List Member)) :
+    idsNodup (runSnaps st snaps).1.members :=
+  runSnaps_nodup st h snaps
+
+/-- after ANY non-empty sequence of snapshots (growing, shrinking, repeated, with duplicate entries) Members() is
+    the last snapshot, by member id. -/
+theorem history_view_is_last_snapshot (st : AgentSt) (h : idsNodup st.members) (snaps : List (List Member))
+    (last : List Member) (hl : snaps.getLast? = some last) :
+    ∀ id, id ∈ ids (runSnaps st snaps).1.members ↔ id ∈ ids last :=
+  runSnaps_view st h snaps last hl
+
+/-- event accounting over the whole history: for every member id, joins − leaves published so far = (in the view
+    now) − (in the view at the start): no event missing, doubled, or published for a member that stayed. -/
+theorem history_events_balance (st : AgentSt) (h : idsNodup st.members) (snaps : List (List Member)) (id : String) :
+    (joinIds (runSnaps st snaps).2).count id + (if id ∈ ids st.members then 1 else 0) =
+    (leaveIds (runSnaps st snaps).2).count id + (if id ∈ ids (runSnaps st snaps).1.members then 1 else 0) :=
+  runSnaps_balance st h snaps id
 
 example :
     let a : Member := ⟨"A", "hA:1", ["k1"]⟩
